@@ -225,6 +225,11 @@ func (e *Engine) storePtr(st *State, t types.Type, p *Term, v *Term, pc *Term) {
 // objects.
 func (e *Engine) noteLoaded(st *State, t types.Type, v *Term) {
 	if v.Op == "ite" {
+		// shared alternatives are visited once
+		if e.loadedFacts[v.id] {
+			return
+		}
+		e.loadedFacts[v.id] = true
 		e.noteLoaded(st, t, v.Args[1])
 		e.noteLoaded(st, t, v.Args[2])
 		return
